@@ -1,7 +1,7 @@
 INIT SimInit
 NEXT SimNext
 CONSTANTS
-  FailsOn = TRUE
+  FailScope = "all"
   Depth = 1
 INVARIANT Emit
 CHECK_DEADLOCK FALSE
